@@ -29,14 +29,16 @@ FLOORS = {"quick": {"cases_with_debug_logging": 750,
                     "yields_injected_inside_conversions": 20000,
                     "decorated_short_rejections": 300, "junk_around_valid_rejections": 600,
                     "case_variant_rejections": 300, "damaged_canonical_rejections": 500,
-                    "numbers_made_of_two_boundary_halves": 200, "quoted_strings": 80},
+                    "numbers_made_of_two_boundary_halves": 200, "quoted_strings": 80,
+                    "fresh_interpreters_whose_first_conversions_were_concurrent": 8},
           "thorough": {"cases_with_debug_logging": 3000,
                        "distinct_nontrivial": 5000, "foreign_char_rejections": 2000, "look_alike_char_rejections": 3000, "braces_rejections": 3000,
                        "overflow_rejections": 1000, "roundtrips": 100000, "wrong_length_rejections": 10000,
                        "yields_injected_inside_conversions": 200000,
                        "decorated_short_rejections": 10000, "junk_around_valid_rejections": 20000,
                        "case_variant_rejections": 10000, "damaged_canonical_rejections": 15000,
-                       "numbers_made_of_two_boundary_halves": 10000, "quoted_strings": 4000}}
+                       "numbers_made_of_two_boundary_halves": 10000, "quoted_strings": 4000,
+                       "fresh_interpreters_whose_first_conversions_were_concurrent": 100}}
 
 REF_ALPHABET = "23456789ABCDEFGHJKLMNPQRSTUVWXYZabcdefghijkmnopqrstuvwxyz"
 TOP = 2 ** 128
@@ -313,7 +315,7 @@ def one_case(ctx, rng, alpha, seen, i):
             check_string(ctx, "".join(canon), alpha, "damaged_canonical")
 
 
-def concurrent_roundtrips(ctx, alpha, seed):
+def concurrent_roundtrips(ctx, alpha, seed, rounds=600):
     """the functions are pure: concurrent callers must not disturb each other.  Four threads, switch interval
     1 microsecond, and sys.monitoring LINE events local to the functions of ak.short_uuid that give the GIL
     away (sleep(0)) with probability 1/4, so that threads really interleave inside the conversion loops"""
@@ -340,9 +342,23 @@ def concurrent_roundtrips(ctx, alpha, seed):
     for c in codes:
         mon.set_local_events(4, c, mon.events.LINE)
 
+    # (all the threads begin at the same moment, and each begins with a DECODE: what the module prepares on its first
+    # use is prepared while the others are already asking)
+    barrier = threading.Barrier(4)
+
     def worker(k):
         rng = random.Random(f"{seed}/{k}")
-        for _ in range(600):
+        first = rng.getrandbits(128)
+        try:
+            barrier.wait(30)
+        except threading.BrokenBarrierError:
+            pass
+        try:
+            if short_uuid.uuid_from_short_str(model_encode(first, alpha)) != uuid.UUID(int=first):
+                errors.append(("differs", str(first), "first decode of the thread"))
+        except Exception as err:
+            errors.append(("raises", str(first), repr(err)))
+        for _ in range(rounds):
             n = rng.getrandbits(128) if rng.random() < 0.8 else rng.getrandbits(40)
             u = uuid.UUID(int=n)
             try:
@@ -374,7 +390,7 @@ def concurrent_roundtrips(ctx, alpha, seed):
             mon.set_local_events(4, c, 0)
         mon.register_callback(4, mon.events.LINE, None)
         mon.free_tool_id(4)
-    ctx.count("concurrent_roundtrips", 4 * 600)
+    ctx.count("concurrent_roundtrips", 4 * rounds)
     ctx.count("yields_injected_inside_conversions", injected[0])
     for err in errors[:50]:
         ctx.violation("concurrent-callers-disturb-each-other", err,
@@ -491,11 +507,47 @@ def optimized_interpreter_cases(ctx, alpha, rng):
                                   {"kind": "str", "value": s, "class": "optimized_interpreter"})
 
 
+class _ProbeCtx:
+    """what concurrent_roundtrips needs of a shard context, for a run in an interpreter of its own"""
+
+    def __init__(self):
+        self.errors, self.counters = [], {}
+
+    def count(self, name, n=1):
+        self.counters[name] = self.counters.get(name, 0) + n
+
+    def violation(self, mech, detail, case):
+        self.errors.append([mech, list(detail)])
+
+
+def fresh_interpreter_probes(ctx, n):
+    """the very first conversions of a process happen once per process: n more interpreters are started whose first
+    use of the module are four threads decoding at the same moment"""
+    import json
+    import os
+    import subprocess
+    import sys
+    for k in range(n):
+        ctx.evaluated()
+        try:
+            r = subprocess.run([sys.executable, "-m", "vf.checks.c20", f"{ctx.seed}/{ctx.shard}/fresh{k}"],
+                               capture_output=True, text=True, timeout=120, cwd=vf.VERIF, env=dict(os.environ))
+            out = json.loads(r.stdout.strip().splitlines()[-1])
+        except Exception as err:
+            ctx.inconclusive_note(f"fresh interpreter probe {k} gave no result: {err!r}"[:200])
+            continue
+        ctx.count("fresh_interpreters_whose_first_conversions_were_concurrent")
+        ctx.count("yields_injected_inside_conversions", out["counters"].get("yields_injected_inside_conversions", 0))
+        for mech, detail in out["errors"][:5]:
+            ctx.violation(mech, tuple(detail), {"kind": "int", "value": detail[1], "class": "concurrent"})
+
+
 def run_shard(ctx):
     alpha = alphabet()
     seen = {}
     ctx.evaluated()
     concurrent_roundtrips(ctx, alpha, f"{ctx.seed}/{ctx.shard}")
+    fresh_interpreter_probes(ctx, 6 if ctx.tier == "quick" else 10)
     for k in range(20):
         str_subclass_cases(ctx, alpha, ctx.rng(10 ** 6 + k))
     if ctx.shard == 0:
@@ -559,3 +611,11 @@ LEVEL_NOTE = ("Trusts uuid.UUID (stdlib) and the harness model (15 lines). Says 
               "never generated; collisions are only searched within the sample and through the "
               "model equality (which implies injectivity for all sampled values).")
 TECHNIQUE = "runtime monitoring: reference-model oracle over generated inputs"
+
+
+if __name__ == "__main__":
+    import json
+    import sys
+    _ctx = _ProbeCtx()
+    concurrent_roundtrips(_ctx, alphabet(), sys.argv[1], rounds=5)
+    print(json.dumps({"errors": _ctx.errors, "counters": _ctx.counters}))
